@@ -78,9 +78,17 @@ def operand_binding(vm: VMModel):
     names = {}
     if outer is None:
         raise AnalysisError(f"{VM}: binary opcodes are not dispatched through a family arm; operand binding not modelled")
+    from ..sem import rtext as _rt_ob
+
+    # locals of the family arm bound once stand for their value (`operands = instruction.Values`)
+    binds = {}
     for st in outer.body:
         if isinstance(st, ast.Assign) and len(st.targets) == 1 and isinstance(st.targets[0], ast.Name):
-            t = unparse(st.value)
+            binds[st.targets[0].id] = None if st.targets[0].id in binds else st.value
+    env_ob = {k: v for k, v in binds.items() if v is not None}
+    for st in outer.body:
+        if isinstance(st, ast.Assign) and len(st.targets) == 1 and isinstance(st.targets[0], ast.Name):
+            t = _rt_ob(st.value, {k: v for k, v in env_ob.items() if k != st.targets[0].id})
             for i in (0, 1):
                 if f"Values[{i}]" in t and "localScope" in t:
                     names[st.targets[0].id] = i
@@ -228,6 +236,13 @@ def run_R01_1(model, col, G, vm):
                 col.bad("R01.1", f"operator {s} chain", f"arm {opcode} uses floor division `{unparse(floors[0])}`: -7 / 2 gives -4, C truncates toward zero (-3)", VM, arm.case)
             elif disc and truncs and plains:
                 col.ok("R01.1", ckey, f"integer operands: {unparse(truncs[0])}; float operands: {unparse(plains[0])} (selected by `{disc[0]}`)")
+                # both paths divide left by right
+                for e_ in plains + truncs:
+                    divs = [b for b in ast.walk(e_) if isinstance(b, ast.BinOp) and isinstance(b.op, (ast.Div, ast.FloorDiv))]
+                    for b in divs:
+                        cc = classify_value_expr(b, opnames)
+                        col.check(cc is not None and tuple(cc[2:4]) == (0, 1), "R01.1", f"operator {s} chain: `{' '.join(unparse(e_).split())[:40]}` divides left by right",
+                                  "dividend = Values[0], divisor = Values[1]", f"arm {opcode} computes `{unparse(e_)}`: the operands of the division are not (left, right)", VM, arm.case)
             elif plains and not truncs:
                 col.bad("R01.1", f"operator {s} chain",
                         f"arm {opcode} computes `{unparse(plains[0])}` for every operand type: two ints divide to a float (7 / 2 = 3.5) instead of truncating toward zero", VM, arm.case)
@@ -593,7 +608,10 @@ def run_R01_5(model, col, vm):
               "the CAST arm does not convert to float for a float target", VM, cast.case)
     ce = model.cls(LOWER, "LowerToIRVisitor").own_method("v_CastExpression")
     mk = [c for c in ast.walk(ce) if isinstance(c, ast.Call) and last_attr(c) == "CastInstruction"]
-    col.check(bool(mk) and "GetType" in unparse(mk[0].args[1]) and "GetArgument" in unparse(find_assign(ce, mk[0].args[0].id)[0] if isinstance(mk[0].args[0], ast.Name) else mk[0].args[0]),
+    from ..sem import local_env as _le15c, rtext as _rt15c
+
+    env15c = _le15c(ce, allow_impure=True)
+    col.check(bool(mk) and "GetType" in _rt15c(mk[0].args[1], env15c) and "GetArgument" in _rt15c(mk[0].args[0], env15c),
               "R01.5", f"{LOWER}::v_CastExpression", "CastInstruction(visit(argument), target type)", "cast lowering does not pass (argument value, target type)", LOWER, ce)
 
 
